@@ -301,8 +301,9 @@ var c47Never = xml.Name{Space: "urn:never", Local: "zz"}
 
 // c47Compare sends a by-name PROPFIND for names (+ one never-set name) and an
 // allprop PROPFIND and compares both with the model. tag prefixes signatures,
-// trig(name) names the abstract situation of a property.
-func c47Compare(w *vx.W, s *c47Srv, model map[xml.Name]c47Prop, names []xml.Name, tag string, trig func(xml.Name) string, ctx func() string) bool {
+// trigName(name) / trig(name) name the abstract situation of a property in
+// signatures of presence clauses / value clauses.
+func c47Compare(w *vx.W, s *c47Srv, model map[xml.Name]c47Prop, names []xml.Name, tag string, trigName, trig func(xml.Name) string, ctx func() string) bool {
 	ask := append(append([]xml.Name{}, names...), c47Never)
 	code, body := s.do("PROPFIND", c47FindBody(ask))
 	if code != 207 {
@@ -329,13 +330,13 @@ func c47Compare(w *vx.W, s *c47Srv, model map[xml.Name]c47Prop, names []xml.Name
 		want, present := model[n]
 		switch {
 		case present && st[n] != 200:
-			w.Failf(tag+"/propfind/set-property-not-returned/"+trig(n), "property %v was set but PROPFIND reports status %d for it: %s. %s", n, st[n], body, ctx())
+			w.Failf(tag+"/propfind/set-property-not-returned/"+trigName(n), "property %v was set but PROPFIND reports status %d for it: %s. %s", n, st[n], body, ctx())
 			return false
 		case present && got[n].Inner != want.Inner:
 			w.Failf(tag+"/propfind/value-differs/"+trig(n), "property %v: sent content %s, PROPFIND returns %s; response %s. %s", n, want.Inner, got[n].Inner, body, ctx())
 			return false
 		case !present && st[n] != 404:
-			w.Failf(tag+"/propfind/absent-property-not-404/"+trig(n), "property %v is not set but PROPFIND reports status %d (content %s): %s. %s", n, st[n], got[n].Inner, body, ctx())
+			w.Failf(tag+"/propfind/absent-property-not-404/"+trigName(n), "property %v is not set but PROPFIND reports status %d (content %s): %s. %s", n, st[n], got[n].Inner, body, ctx())
 			return false
 		}
 	}
@@ -358,7 +359,7 @@ func c47Compare(w *vx.W, s *c47Srv, model map[xml.Name]c47Prop, names []xml.Name
 			}
 			want, present := model[p.Name]
 			if !present || g.Status != 200 {
-				w.Failf(tag+"/allprop/unexpected-property/"+trig(p.Name), "allprop lists %v (status %d, content %s) which is not set: %s. %s", p.Name, g.Status, p.Inner, body, ctx())
+				w.Failf(tag+"/allprop/unexpected-property/"+trigName(p.Name), "allprop lists %v (status %d, content %s) which is not set: %s. %s", p.Name, g.Status, p.Inner, body, ctx())
 				return false
 			}
 			if p.Inner != want.Inner {
@@ -370,7 +371,7 @@ func c47Compare(w *vx.W, s *c47Srv, model map[xml.Name]c47Prop, names []xml.Name
 	}
 	for n := range model {
 		if !seen[n] {
-			w.Failf(tag+"/allprop/set-property-not-returned/"+trig(n), "property %v is set but allprop does not list it: %s. %s", n, body, ctx())
+			w.Failf(tag+"/allprop/set-property-not-returned/"+trigName(n), "property %v is set but allprop does not list it: %s. %s", n, body, ctx())
 			return false
 		}
 	}
@@ -491,7 +492,8 @@ func c47RoundTrip(w *vx.W, x c47RT) {
 	if _, ok := c47Patch(w, s, model, []c47Instr{in}, x.Spelling, "C47/set", func(xml.Name) string { return c47ValueClass(sentProp) }, ctx); !ok {
 		return
 	}
-	if !c47Compare(w, s, model, []xml.Name{n}, "C47/set", trig, ctx) {
+	nsTrig := func(n xml.Name) string { return c47NSClass(n.Space) }
+	if !c47Compare(w, s, model, []xml.Name{n}, "C47/set", nsTrig, trig, ctx) {
 		return
 	}
 	// propname lists the name
@@ -506,7 +508,7 @@ func c47RoundTrip(w *vx.W, x c47RT) {
 		}
 	}
 	if code != 207 || err != nil || !found {
-		w.Failf("C47/set/propname/set-property-not-listed/"+trig(n), "propname PROPFIND (status %d, err %v) does not list %v: %s. %s", code, err, n, body, ctx())
+		w.Failf("C47/set/propname/set-property-not-listed/"+nsTrig(n), "propname PROPFIND (status %d, err %v) does not list %v: %s. %s", code, err, n, body, ctx())
 		return
 	}
 	w.Nontrivial()
@@ -520,7 +522,7 @@ func c47RoundTrip(w *vx.W, x c47RT) {
 	if len(model) != 0 {
 		panic("c47: model not empty after remove")
 	}
-	if !c47Compare(w, s, model, []xml.Name{n}, "C47/remove", func(xml.Name) string { return "after-remove" }, ctx2) {
+	if !c47Compare(w, s, model, []xml.Name{n}, "C47/remove", nsTrig, nsTrig, ctx2) {
 		return
 	}
 	w.Outcome("removed")
@@ -591,7 +593,7 @@ func c47Seq(c *vx.Ctx, part, res string, names []xml.Name, values []string) {
 				}
 				return "last=" + l
 			}
-			if !c47Compare(w, st.s, st.model, names, "C47/seq", trig, ctx) {
+			if !c47Compare(w, st.s, st.model, names, "C47/seq", trig, trig, ctx) {
 				return false
 			}
 			w.Outcome(fmt.Sprintf("props=%d applied=%v", len(st.model), applied))
